@@ -20,6 +20,12 @@ def inner(a: PolyLike, b: PolyLike) -> ndpoly:
     a, b = numpoly.align_exponents(a, b)
     if not a.ndim or not b.ndim:
         return numpoly.multiply(a, b)
+    # narrow integers are multiplied in the type their sum accumulates in: the
+    # products must not wrap around before they are added up
+    dtype = numpy.result_type(a.dtype, b.dtype)
+    if dtype.kind in "iu":
+        dtype = numpy.sum(numpy.empty(0, dtype=dtype)).dtype
+        a, b = a.astype(dtype), b.astype(dtype)
     # sum product over the last axes: out[i..., j...] = sum(a[i..., :]*b[j..., :])
     a = a[(Ellipsis,) + (numpy.newaxis,) * (b.ndim - 1) + (slice(None),)]
     product = numpoly.multiply(a, b)
